@@ -59,6 +59,46 @@ theorem shift_inverse {f : Frame} {n : Nat} (hr : f.RectN n) (p : Int) (hp : inI
     rw [if_pos h, if_pos h, shiftCol_getD hl hn hp hj, if_pos hc, hi']
   · rw [if_neg h, if_neg h]
 
+/-- two shifts in a row, cell by cell: a cell survives iff it stays inside the frame after each step -/
+theorem shift_shift_cell {f : Frame} {n : Nat} (hr : f.RectN n) (p q : Int) (hp : inInt64 p) (hq : inInt64 q)
+    (hn : (n : Int) < 2 ^ 62) (k : Str) (c : Col) (hk : (k, c) ∈ f) (i : Nat) (hi : i < n) :
+    ∃ c', (k, c') ∈ (f.shift p).shift q ∧
+      c'.data.getD i .nil =
+        (if (0 ≤ (i : Int) - q ∧ (i : Int) - q < n) ∧ (0 ≤ (i : Int) - q - p ∧ (i : Int) - q - p < n)
+         then c.data.getD ((i : Int) - q - p).toNat .nil else .nil) := by
+  refine ⟨_, mem_shift (mem_shift hk p) q, ?_⟩
+  have hl : c.data.length = n := (hr _ hk).1
+  have hl' : (shiftCol c.data p).length = n := by rw [shiftCol_length]; exact hl
+  rw [shiftCol_getD hl' hn hq hi]
+  by_cases h1 : 0 ≤ (i : Int) - q ∧ (i : Int) - q < n
+  · have hj : ((i : Int) - q).toNat < n := by omega
+    rw [if_pos h1, shiftCol_getD hl hn hp hj]
+    have e : ((((i : Int) - q).toNat : Nat) : Int) - p = (i : Int) - q - p := by omega
+    rw [e]
+    by_cases h2 : 0 ≤ (i : Int) - q - p ∧ (i : Int) - q - p < n
+    · rw [if_pos h2, if_pos ⟨h1, h2⟩]
+    · rw [if_neg h2, if_neg (fun h => h2 h.2)]
+  · rw [if_neg h1, if_neg (fun h => h1 h.1)]
+
+/-- shifts in the same direction add up: `Shift(p)` then `Shift(q)` is `Shift(p+q)` when `p, q ≥ 0`
+(and, symmetrically, when `p, q ≤ 0`) -/
+theorem shift_add {f : Frame} {n : Nat} (hr : f.RectN n) (p q : Int) (hp : inInt64 p) (hq : inInt64 q)
+    (hpq : inInt64 (p + q)) (hsame : (0 ≤ p ∧ 0 ≤ q) ∨ (p ≤ 0 ∧ q ≤ 0))
+    (hn : (n : Int) < 2 ^ 62) (k : Str) (c : Col) (hk : (k, c) ∈ f) (i : Nat) (hi : i < n) :
+    ∃ c' c'', (k, c') ∈ (f.shift p).shift q ∧ (k, c'') ∈ f.shift (p + q) ∧
+      c'.data.getD i .nil = c''.data.getD i .nil := by
+  obtain ⟨c', hc', e'⟩ := shift_shift_cell hr p q hp hq hn k c hk i hi
+  refine ⟨c', _, hc', mem_shift hk (p + q), ?_⟩
+  have hl : c.data.length = n := (hr _ hk).1
+  rw [e', shiftCol_getD hl hn hpq hi]
+  have e : (i : Int) - (p + q) = (i : Int) - q - p := by omega
+  rw [e]
+  by_cases h2 : 0 ≤ (i : Int) - q - p ∧ (i : Int) - q - p < n
+  · have h1 : 0 ≤ (i : Int) - q ∧ (i : Int) - q < n := by
+      rcases hsame with ⟨h, h'⟩ | ⟨h, h'⟩ <;> omega
+    rw [if_pos h2, if_pos ⟨h1, h2⟩]
+  · rw [if_neg h2, if_neg (fun h => h2 h.2)]
+
 /-- non-vacuity: a concrete frame meets the hypotheses and a shift by MinInt64 blanks it -/
 example : (Frame.shift [([97], { name := [97], data := [.int .int 1, .int .int 2] })] (-(2 ^ 63))) =
     [([97], { name := [97], data := [.nil, .nil] })] := by decide
